@@ -84,6 +84,15 @@ func (c *Ctx) Drift(kind string) {
 	c.mu.Unlock()
 }
 
+// noteDrift keeps a few examples of model/code drift for the evidence file.
+func (c *Ctx) noteDrift(msg string) {
+	c.mu.Lock()
+	if ex, _ := c.extra["drift_examples"].([]string); len(ex) < 12 {
+		c.extra["drift_examples"] = append(ex, msg)
+	}
+	c.mu.Unlock()
+}
+
 func (c *Ctx) Sample(s interface{}) {
 	c.mu.Lock()
 	if len(c.samples) < 8 {
